@@ -233,6 +233,7 @@ impl UnitPropagate {
                 norm_ok(cs) ==> mk(watch_list_pos, watch_list_neg, cnf).entries_ok() && built_upto(mk(watch_list_pos, watch_list_neg, cnf), idx__n as int),
             decreases cs.len() - idx__n,
 //%% @loopbody 2
+            let ghost u1 = mk(watch_list_pos, watch_list_neg, cnf);
             proof {
                 assert forall|i: int| 0 <= i < cs.len() implies (#[trigger] cs[i]@.len() == 0 ==> unsat(cs)) && (cs[i]@.len() == 1 ==> unit_lit_ok(cs, cs[i]@[0])) by { lemma_unit_clause(cs, i); }
                 assert forall|x: Literal| #![trigger implied@.push(x)] implied@.push(x).contains(x) && (forall|y: Literal| implied@.contains(y) ==> #[trigger] implied@.push(x).contains(y)) by { lemma_push_contains(implied@, x); }
@@ -256,8 +257,6 @@ impl UnitPropagate {
         proof { if norm_ok(cs) { lemma_built_start(mk(watch_list_pos, watch_list_neg, cnf)); } }
 //%% @after /implied\.push\(c\[0\]\);/
                 proof { if norm_ok(cs) { lemma_built_skip(mk(watch_list_pos, watch_list_neg, cnf), idx as int); } }
-//%% @before /^\s*if c\[1\]\.polarity\(\) \{$/
-            let ghost u1 = mk(watch_list_pos, watch_list_neg, cnf);
 //%% @loopend 2
             proof {
                 if norm_ok(cs) {
@@ -361,7 +360,7 @@ impl UnitPropagate {
                                 lemma_prog_rec(u0, u1, *self, m0, m1, cur_state, nl, w0);
                             }
                         }
-//%% @after /let new_loc = new_lit\.label\(\)\.value_usize\(\);/
+//%% @after /let \w+ = new_lit\.label\(\)\.value_usize\(\);/
                 let ghost u1 = *self;
                 let ghost nlit = *new_lit;
 //%% @before /\/\/ do not increment watcher_idx/
